@@ -105,6 +105,19 @@ PROPS = {
             "note": "Trusted: the acceptance table (written from the specification's GetDifferenceSettings / round / toString option rules) and refmodel::round/dur.",
         },
     },
+    "C17": {
+        "builds": ["chk", "rel"],
+        "rule": ("receivers (C04 hostile dates, random times) x every subset of supplied fields (PlainDate/PlainYearMonth: year, month, monthCode, day = 16 subsets; PlainTime 64 subsets; "
+                 "PlainDateTime 16 x 64 sampled) x values {0, 1, max valid, max valid + 1, type max; years incl. both limits +-1 and i32 extremes; month codes incl. M13, M05L, M00, M99; "
+                 "agreeing and contradicting month/monthCode} x both overflow modes, for with / from_partial / new_with_overflow / new / try_new, compared with a reference merge; identity "
+                 "law x.with(own fields) = x. non-trivial = the expected result differs from the receiver; distinct by case fingerprint"),
+        "assumptions": ["ISO calendar only (era fields belong to C16)", "a supplied month or day of 0 is not judged (the property says clamp, the specification rejects it at conversion): counted undecided"],
+        "manifest": {
+            "technique": "runtime monitoring: reference field-merge oracle over all supplied-field subsets and hostile values, two builds",
+            "text": "Every observed with/from_partial/constructor result (value or error kind) for PlainDate, PlainTime, PlainDateTime and PlainYearMonth is compared with a reference merge: supplied field, else the receiver's or the type default, then constrain/reject regulation for the resulting year and month, month/monthCode consistency, required-field TypeErrors and the range limits. All field subsets are covered on every run; values are drawn from boundary sets.",
+            "note": "Trusted: the reference merge in mon/c17.rs and refmodel::civil.",
+        },
+    },
 }
 
 
